@@ -536,6 +536,98 @@ Proof.
   - assert (length (a ++ rest) <= n)%nat by (rewrite <- Epay; exact Hpl).
     rewrite app_length in H. rewrite Erest, app_length, Hn in H. lia.
 Qed.
+
+(* ---------- a request program per row (C03) ---------- *)
+Lemma s_load_hist_spec sep hdr : sane_sep sep ->
+  forall t progs chs final body fuel fl s acc,
+  ((t = [] /\ body = []) \/ render sep chs final t = Some body) ->
+  remaining s = body -> loop_inv hdr s ->
+  (length body < fuel)%nat -> (2 * length body + 1 < fl)%nat ->
+  s_load_hist rd iend fuel fl sep progs s acc =
+    if widths_ok hdr t then Ok (acc ++ hist_rows hdr progs t) else Err ParsingError.
+Proof.
+  intros S. induction t as [|rec t IH]; intros progs chs final body fuel fl s acc Hb Hrem (Inv & Hend & Hhdr) Hfuel Hfl.
+  - destruct Hb as [[_ ->]|Hb]; [|rewrite render_nil in Hb; discriminate].
+    destruct fuel as [|fuel]; [lia|]. cbn [s_load_hist].
+    unfold remaining in Hrem. apply app_eq_nil in Hrem. destruct Hrem as [R1 R2].
+    apply skipn_nil_length in R1. unfold s_is_end. rewrite (proj2 (Nat.leb_le _ _) R1), (Hend R1).
+    cbn. rewrite app_nil_r. reflexivity.
+  - destruct Hb as [[Hb _]|Hb]; [discriminate|].
+    pose proof (render_nonempty _ _ _ _ _ Hb) as Hbne.
+    destruct (render_shape _ _ _ _ _ _ Hb) as (ch & chs' & a & rest & n & tail & -> & Ha & -> & LR & Hprog & Erest & Hn & Htail).
+    destruct fuel as [|fuel]; [lia|]. cbn [s_load_hist].
+    rewrite (s_not_end s Inv) by (rewrite Hrem; exact Hbne).
+    unfold s_parse_next_row.
+    destruct (s_parse_next_line_record sep S s a rest n (ch_quotes ch) rec fl Inv Hrem Ha LR Hbne)
+      as (post1 & e2 & E & Hpost & Inv2 & Hnle & Hend2).
+    { rewrite Hrem. exact Hfl. }
+    rewrite E. unfold s_line_result.
+    cbn [s_headers s_metas s_line s_prev s_buf s_esr s_pos s_rowidx andb negb].
+    rewrite (rec_metas_length sep rec _ a _ Ha), Hhdr.
+    unfold widths_ok. cbn [forallb]. fold (widths_ok hdr t). change (@length field) with (@length (list N)) in *.
+    rewrite (Nat.eqb_sym (@length (list N) rec) (@length (list N) hdr)).
+    destruct (Nat.eqb (@length (list N) hdr) (@length (list N) rec)) eqn:Ew; cbn [negb andb]; [|reflexivity].
+    apply Nat.eqb_eq in Ew.
+    match goal with |- context [s_read_keys ?ss _ []] => set (s1 := ss) end.
+    destruct (s_read_keys_gen sep (ch_quotes ch) rec post1 (hd [] progs) s1 [] a)
+      as (s2 & txt2 & E2 & RC2 & B2 & (A1&A2&A3&A4&A5&A6)).
+    { subst s1. cbn [s_headers]. symmetry. exact Ew. }
+    { subst s1. cbn [s_metas]. apply row_cells_initial. exact Ha. }
+    { subst s1. reflexivity. }
+    rewrite E2. cbv beta iota. subst s1. cbn [s_esr s_headers s_metas s_pos s_line s_rowidx s_prev s_validx app] in *.
+    destruct (row_cells_length sep _ _ _ _ _ RC2 a Ha) as [El2 _].
+    etransitivity.
+    { apply (IH (tl progs) chs' final tail fuel fl s2 (acc ++ [read_spec hdr rec (hd [] progs) 0])).
+      + exact Htail.
+      + unfold remaining. rewrite A1, A3, B2, <- El2, skipn_past.
+        rewrite skipn_app_le by exact Hnle. rewrite Hpost. rewrite Erest at 1.
+        rewrite <- Hn at 1. apply skipn_app_exact.
+      + split; [rewrite A1; exact Inv2|]. split; [|rewrite A2; reflexivity].
+        rewrite A1, A3, B2, app_length, El2. intros H. apply Hend2. lia.
+      + rewrite app_length in Hfuel. rewrite Erest, app_length, Hn in Hfuel. lia.
+      + rewrite app_length in Hfl. rewrite Erest, app_length, Hn in Hfl. lia. }
+    destruct (widths_ok hdr t); [|reflexivity].
+    cbn [hist_rows]. rewrite <- app_assoc. reflexivity.
+Qed.
+
+Theorem csv_load_src_hist_render sep chs final hdr rows payload progs e0 n : allowed sep ->
+  esr_inv e0 -> stream_rest e0 = payload -> (length payload <= n)%nat ->
+  render sep chs final (hdr :: rows) = Some payload ->
+  csv_load_src_hist rd iend n sep progs e0 = hist_expect hdr progs rows.
+Proof.
+  intros A Inv0 Hsr Hpl R. pose proof (allowed_sane sep A) as S.
+  unfold csv_load_src_hist. rewrite (allowed_validate sep A). cbn [negb].
+  pose proof (render_nonempty _ _ _ _ _ R) as Hne.
+  destruct (render_shape _ _ _ _ _ _ R) as (ch & chs' & a & rest & n0 & tail & -> & Ha & Epay & LR & Hprog & Erest & Hn & Htail).
+  unfold s_new.
+  set (s0 := mkS [] e0 [] [] 0 0 0 0 0).
+  assert (Hrem0 : remaining s0 = a ++ rest).
+  { unfold remaining, s0. cbn [s_pos s_buf s_esr skipn app]. rewrite Hsr. exact Epay. }
+  destruct (s_parse_next_line_record sep S s0 a rest n0 (ch_quotes ch) hdr (2 * n + 4)%nat Inv0 Hrem0 Ha LR)
+    as (post1 & e2 & E1 & Hpost & Inv2 & Hnle & Hend2).
+  { rewrite <- Epay. exact Hne. }
+  { rewrite Hrem0, <- Epay. lia. }
+  rewrite E1. unfold s_line_result, s0. cbn [s_headers s_metas s_line s_rowidx s_validx length].
+  match goal with |- context [s_read_headers _ ?ss []] => set (s1 := ss) end.
+  destruct (s_read_headers_spec sep (ch_quotes ch) hdr post1 (length (rec_metas 0 (ch_quotes ch) hdr)) s1 [] a)
+    as (s2 & txt2 & E2 & RC2 & B2 & (A1&A2&A3&A4&A5&A6)).
+  { subst s1. cbn [s_metas]. apply row_cells_initial. exact Ha. }
+  { subst s1. reflexivity. }
+  { subst s1. cbn [s_metas s_validx]. rewrite (rec_metas_length sep hdr _ a 0 Ha). lia. }
+  rewrite E2. cbv beta iota. subst s1. cbn [s_esr s_headers s_metas s_pos s_line s_rowidx s_prev s_validx skipn app] in *.
+  destruct (row_cells_length sep _ _ _ _ _ RC2 a Ha) as [El2 _].
+  unfold hist_expect.
+  apply (s_load_hist_spec sep hdr S rows progs chs' final tail).
+  - exact Htail.
+  - unfold remaining. cbn [s_pos s_buf s_esr]. rewrite A1, A3, B2, <- El2, skipn_past.
+    rewrite skipn_app_le by exact Hnle. rewrite Hpost. rewrite Erest at 1. rewrite <- Hn at 1. apply skipn_app_exact.
+  - unfold loop_inv. cbn [s_pos s_buf s_esr s_headers]. split; [rewrite A1; exact Inv2|]. split; [|reflexivity].
+    rewrite A1, A3, B2, app_length, El2. intros H. apply Hend2. lia.
+  - assert (length (a ++ rest) <= n)%nat by (rewrite <- Epay; exact Hpl).
+    rewrite app_length in H. rewrite Erest, app_length, Hn in H. lia.
+  - assert (length (a ++ rest) <= n)%nat by (rewrite <- Epay; exact Hpl).
+    rewrite app_length in H. rewrite Erest, app_length, Hn in H. lia.
+Qed.
 End SRC.
 
 Arguments remaining {Src} stream_rest s.
@@ -546,6 +638,7 @@ Arguments s_read_next_meta {Src} s m.
 Arguments s_read_key_meta {Src} s k idx m.
 Arguments s_scan_refines {Src} rd iend stream_rest esr_inv rd_spec iend_spec sep.
 Arguments csv_load_src_render {Src} rd iend stream_rest esr_inv rd_spec iend_spec.
+Arguments csv_load_src_hist_render {Src} rd iend stream_rest esr_inv rd_spec iend_spec.
 
 (* ---------- constructor and LoadObject from a stream ---------- *)
 
@@ -588,6 +681,16 @@ Theorem csv_load_stream_render K sep chs final hdr rows text keys : (0 < K)%nat 
 Proof.
   intros HK A R. destruct (esr_new_spec K text HK) as [Hsr Inv0]. unfold csv_load_stream.
   apply (csv_load_src_render (esr_read_chunk K) esr_is_end esr_rest esr_ok
+           (fun e Inv => esr_read_chunk_spec K e HK Inv) esr_iend_spec sep chs final hdr rows (stream_payload K text));
+    try assumption. apply stream_payload_length.
+Qed.
+
+Theorem csv_load_stream_hist_render K sep chs final hdr rows text progs : (0 < K)%nat -> allowed sep ->
+  render sep chs final (hdr :: rows) = Some (stream_payload K text) ->
+  csv_load_stream_hist K sep progs text = hist_expect hdr progs rows.
+Proof.
+  intros HK A R. destruct (esr_new_spec K text HK) as [Hsr Inv0]. unfold csv_load_stream_hist.
+  apply (csv_load_src_hist_render (esr_read_chunk K) esr_is_end esr_rest esr_ok
            (fun e Inv => esr_read_chunk_spec K e HK Inv) esr_iend_spec sep chs final hdr rows (stream_payload K text));
     try assumption. apply stream_payload_length.
 Qed.
